@@ -1,0 +1,34 @@
+//! Verification hooks (feature `zipora_verif`, off by default).
+//!
+//! A schedule point is a call `sched_point(id)` placed between two steps of a
+//! concurrent operation. With no hook installed it does nothing. A checking
+//! harness installs a hook that runs operations of *other* logical threads at
+//! that point, so that interleavings of the real code can be explored by a
+//! single-threaded symbolic executor and replayed deterministically.
+//!
+//! The hook slot is a plain `static mut`: it is meant to be installed once by a
+//! single-threaded checking harness before the code under test runs.
+
+static mut HOOK: Option<fn(u32)> = None;
+
+/// Install the schedule hook (single-threaded harness use only).
+pub fn set_sched_hook(f: fn(u32)) {
+    // SAFETY: harness contract - no concurrent access to the slot.
+    unsafe { HOOK = Some(f) }
+}
+
+/// Remove the schedule hook.
+pub fn clear_sched_hook() {
+    // SAFETY: harness contract - no concurrent access to the slot.
+    unsafe { HOOK = None }
+}
+
+/// Schedule point `id`: runs the installed hook, if any.
+#[inline]
+pub fn sched_point(id: u32) {
+    // SAFETY: harness contract - no concurrent writes while code under test runs.
+    let h = unsafe { HOOK };
+    if let Some(f) = h {
+        f(id);
+    }
+}
